@@ -358,6 +358,32 @@ func healthStream(cfg *Config) *hx.Stats {
 			}
 			runCheck(p, "foreign-owner@"+hx.IDStr(id), x, exp, "foreign-owner")
 		}
+		// (d') a parent with SEVERAL external children, one of them owned by a different address, at
+		//      every position among its siblings (the owner must be checked on every edge, in whatever
+		//      order the slabs are visited)
+		for pos := 0; pos < 3; pos++ {
+			x := buildWorld(seed, committed)
+			home := hx.MkAddr(1)
+			other := hx.MkAddr(uint64(3 + rng.Intn(3)))
+			b, err := atree.NewArray(x.ps, home, hx.TI(9))
+			if err != nil {
+				panic(err)
+			}
+			for j := 0; j < 3; j++ {
+				a := home
+				if j == pos {
+					a = other
+				}
+				ref, err := atree.NewStorableSlab(x.ps, a, hx.TV{Size: 20, Pay: uint64(900 + j)}, 20)
+				if err != nil {
+					panic(err)
+				}
+				if err := b.Append(RefV{atree.SlabID(ref.(atree.SlabIDStorable))}); err != nil {
+					panic(err)
+				}
+			}
+			runCheck(p, fmt.Sprintf("foreign-owner-sibling%d", pos), x, len(x.roots)+1, "foreign-owner")
+		}
 		// all-child-references query on each root, against the oracle walk
 		for _, r := range hw.roots {
 			refs, broken, err := hw.ps.GetAllChildReferences(r)
